@@ -47,6 +47,35 @@ def _uniform_reduction(run, P):
             run.incomplete("F-PATH/uniform-reduction", c, where(f), "no return found")
 
 
+def _single_reduction_table(run, P):
+    """the ten named aggregations are the entries of ONE table, NUMPY_AGGREGATIONS: np.sum/np.prod/np.mean ... with their numpy dtype rules (bool and narrow integers
+    are promoted before summing).  A second table of "equivalent" functions for a fast path (np.add for sum, np.multiply for prod, np.logical_and for all ...) has other
+    dtype rules and ignores the keyword arguments, so the same aggregation gives different results depending on destination or data layout."""
+    m = next(mm for mm in P.modules.values() if mm.relpath == "uxarray/core/aggregation.py")
+    tables = {}
+    for st in m.tree.body:
+        if isinstance(st, ast.Assign) and len(st.targets) == 1 and isinstance(st.targets[0], ast.Name) and isinstance(st.value, ast.Dict):
+            vals = st.value.values
+            keys = [k.value for k in st.value.keys if isinstance(k, ast.Constant)]
+            if keys and all(isinstance(v, (ast.Attribute, ast.Name)) for v in vals) and len(set(keys) & {"sum", "mean", "min", "max", "prod", "all", "any", "std", "var", "median"}) >= 2:
+                tables[st.targets[0].id] = st
+    c = "uxarray/core/aggregation.py:one-reduction-table"
+    extra = sorted(t for t in tables if t not in ("NUMPY_AGGREGATIONS", "DASK_AGGREGATIONS"))
+    used = set()
+    for f in m.all_funcs:
+        for n in ast.walk(f.node):
+            if isinstance(n, ast.Name) and n.id in extra and isinstance(n.ctx, ast.Load):
+                used.add(n.id)
+    if "NUMPY_AGGREGATIONS" not in tables:
+        run.incomplete("F-PATH/uniform-reduction", c, "uxarray/core/aggregation.py", "table NUMPY_AGGREGATIONS not found")
+    elif used:
+        st = tables[sorted(used)[0]]
+        run.violation("F-PATH/uniform-reduction", c, f"uxarray/core/aggregation.py:{st.lineno}", f"a second table of reduction functions ({sorted(used)}) is consulted next to NUMPY_AGGREGATIONS: "
+                      f"{norm(st.value)[:90]} - binary ufuncs do not promote bool/narrow integers the way np.sum/np.prod do and take no keyword arguments")
+    else:
+        run.holds("F-PATH/uniform-reduction", c, f"uxarray/core/aggregation.py:{tables['NUMPY_AGGREGATIONS'].lineno}", "NUMPY_AGGREGATIONS is the only table of reduction functions")
+
+
 def _partition_order_restored(run, P):
     """every consumer of get_face_node_partitions puts partition results back at the faces they were computed for: a scatter  result[..., sorted_ind[start:end]] = ...
     or a gather through the INVERSE permutation np.argsort(sorted_ind); indexing the size-ordered results with sorted_ind itself permutes them a second time"""
@@ -73,6 +102,7 @@ def _partition_order_restored(run, P):
 def check(run):
     P = run.program
     _uniform_reduction(run, P)
+    _single_reduction_table(run, P)
     _partition_order_restored(run, P)
     from ..rules import dtype as _dt
     _dt.check_float_results(run, P, ["uxarray/core/aggregation.py:_apply_node_to_face_aggregation_numpy", "uxarray/core/aggregation.py:_apply_node_to_edge_aggregation_numpy",
